@@ -13,7 +13,8 @@ impl TcpObservation {
     }
 
     pub(crate) fn distance_mss(&self, other: &tcp::Signature) -> Option<u32> {
-        if other.mss.is_none() || self.mss == other.mss {
+        // p0f writes 0 for "no MSS option": an absent option is an instance of `0`
+        if other.mss.is_none() || self.mss.unwrap_or(0) == other.mss.unwrap_or(0) {
             Some(tcp::TcpMatchQuality::High.as_score())
         } else {
             Some(tcp::TcpMatchQuality::Low.as_score())
@@ -21,7 +22,8 @@ impl TcpObservation {
     }
 
     pub(crate) fn distance_wscale(&self, other: &tcp::Signature) -> Option<u32> {
-        if other.wscale.is_none() || self.wscale == other.wscale {
+        // p0f writes 0 for "no window-scale option": an absent option is an instance of `0`
+        if other.wscale.is_none() || self.wscale.unwrap_or(0) == other.wscale.unwrap_or(0) {
             Some(tcp::TcpMatchQuality::High.as_score())
         } else {
             Some(tcp::TcpMatchQuality::Medium.as_score())
